@@ -652,7 +652,9 @@ func replay() {
 	}
 	var s *symbol
 	var p string
-	if rc.Kind == "qr" {
+	if rc.Kind == "qr" && rc.Twin {
+		s, p = buildQRText(rc.V, rc.Level, rc.Mask, twinText(rc.V, rc.Level), true)
+	} else if rc.Kind == "qr" {
 		s, p = buildQR(rc.V, rc.Level, rc.Mask)
 	} else {
 		s, p = buildDM(rc.DM)
@@ -697,4 +699,74 @@ func pickS(q, t string) string {
 		return q
 	}
 	return t
+}
+
+// runTwinBlocks: symbols whose data blocks are near twins (twinText), damaged - within the capacity
+// of the block - so that the data part of a block READS like the data of the block before it (the
+// few differing codewords are overwritten with the neighbour's values; also like the block after
+// it, and with every second differing codeword only). A decoder that judges a block by comparing
+// it with a neighbour instead of by its own check codewords goes wrong exactly here.
+func runTwinBlocks() {
+	type job struct{ v, l int }
+	var jobs []job
+	for v := 2; v <= 40; v++ {
+		for l := 0; l < 4; l++ {
+			if _, nb := qr.ECInfo(v, qr.Level(l)); nb >= 2 {
+				if chk.Quick() && v > 12 && (v+l)%4 != 0 {
+					continue
+				}
+				jobs = append(jobs, job{v, l})
+			}
+		}
+	}
+	chk.Range(fmt.Sprintf("near-twin data blocks: %d multi-block QR (version, level) pairs with a text whose period is the block length; in every block the codewords that differ from the PREVIOUS (and from the NEXT) block are overwritten with that block's values (all of them if within capacity, else the first t; and every second one): exact text", len(jobs)), len(jobs),
+		func(i int) string { return fmt.Sprint(jobs[i]) },
+		func(l *mc.Local, i int) {
+			j := jobs[i]
+			s, p := buildQRText(j.v, j.l, (j.v+j.l)%8, twinText(j.v, j.l), true)
+			if p != "" {
+				l.Count("twin symbols the library does not build as the reference does (reported by the setup family)", 1)
+				return
+			}
+			s.ord = 100000 + j.v*4 + j.l
+			for b := range s.blocks {
+				for _, nb := range []int{b - 1, b + 1} {
+					if nb < 0 || nb >= len(s.blocks) {
+						continue
+					}
+					var diff []int
+					n := s.dataLen[b]
+					if s.dataLen[nb] < n {
+						n = s.dataLen[nb]
+					}
+					for k := 0; k < n; k++ {
+						if s.ref[s.blocks[b][k]] != s.ref[s.blocks[nb][k]] {
+							diff = append(diff, k)
+						}
+					}
+					if len(diff) == 0 {
+						l.Count("twin blocks with identical data (nothing to damage)", 1)
+						continue
+					}
+					for variant := 0; variant < 2; variant++ {
+						f := &fault{}
+						for q, k := range diff {
+							if variant == 1 && q%2 == 1 {
+								continue
+							}
+							if len(f.CW) == s.t() {
+								break
+							}
+							f.CW = append(f.CW, s.blocks[b][k])
+							f.XOR = append(f.XOR, int(s.ref[s.blocks[b][k]]^s.ref[s.blocks[nb][k]]))
+						}
+						if len(diff) <= s.t() && variant == 0 {
+							l.Count("twin blocks made to read exactly like the neighbour", 1)
+						}
+						try(l, s, f, "qr/twin-blocks", "C05/qr/%stwin-blocks", "exact", int64(b*8+variant*2+(nb-b+1)/2))
+					}
+				}
+			}
+		})
+	flush(map[string]int{})
 }
